@@ -32,7 +32,8 @@ def run(ck, F, E):
     rows["abasic_lsp::main_loop|unwrap|unwrap|of:from_value"] = {
         "inv": "EXEMPT", "why": "decoding InitializeParams: malformed client messages are outside the property's quantifier",
         "check": None}
-    G, seen, T = panics.panic_freedom(ck, F, E, "C20", [ml.path], rows, vetted.INV_DEPENDS, exempt_fns=EXEMPT, floor_sites=40)
+    from props.C05 import analyzer_deps
+    G, seen, T = panics.panic_freedom(ck, F, E, "C20", [ml.path], rows, analyzer_deps(), exempt_fns=EXEMPT, floor_sites=40)
     panics.recursion_rule(ck, F, G, seen, "C20")
     units(ck, F)
     legend(ck, F)
